@@ -279,10 +279,10 @@ def _battery_instances(tier):
 TIER_PARAMS = {'quick': {'conc_cap': 400, 'max_decisions': 20000, 'deadline_s': 400}, 'thorough': {'conc_cap': 800, 'max_decisions': 60000, 'deadline_s': 3000}}
 
 HARNESSES = [
-    H('h19_1_ctor', h_ctor, _ctor_instances, expect=('ELFError', 'opened'),
+    H('h19_1_ctor', h_ctor, _ctor_instances, decoy=-1, expect=('ELFError', 'opened'),
       desc='ELFFile(stream) on images whose EVERY byte is symbolic (n = 0..6 fully free; n up to header + one table entry with only magic/class/data pinned): every path of the constructor ends by '
            'returning or by an exception that is an ELFError; the stream model raises ValueError / OverflowError on absurd seeks like io.BytesIO does'),
-    H('h19_2_battery', h_battery, _battery_instances, expect=('terminated', 'ctor-ELFError'),
+    H('h19_2_battery', h_battery, _battery_instances, decoy=-1, expect=('terminated', 'ctor-ELFError'),
       desc='seed shared objects (sections, segments, symbols, dynamic table, notes, SysV and GNU hash) with one or two fields replaced by UNCONSTRAINED symbolic values (every count, size, offset, '
            'link, entry size, type of the file header, section / program headers, dynamic entries, hash and note words) or truncated at every table boundary: the enumeration battery of the '
            'statement terminates on every path within 64 x file size + 4096 stream reads (paths longer than the decision budget are reported inconclusive, never as success)'),
